@@ -14,6 +14,12 @@ func init() { register("C18", c18) }
 
 // reachableUnder computes the blocks reachable from the entry when the given boolean SSA values are fixed.
 func reachableUnder(fn *ssa.Function, assign map[ssa.Value]bool) map[*ssa.BasicBlock]bool {
+	return reachableUnderBlocked(fn, assign, nil)
+}
+
+// reachableUnderBlocked: as reachableUnder, but a branch whose condition stays unknown and for which blocked reports true is
+// not followed at all — what is reachable is then reachable whatever such conditions turn out to be.
+func reachableUnderBlocked(fn *ssa.Function, assign map[ssa.Value]bool, blocked func(ssa.Value) bool) map[*ssa.BasicBlock]bool {
 	seen := map[*ssa.BasicBlock]bool{}
 	// path-sensitive for boolean phis: the value of a phi is that of the edge the path came in on (single-exit code and
 	// inlined helpers merge a test's outcome into a flag that is branched on later)
@@ -112,6 +118,9 @@ func reachableUnder(fn *ssa.Function, assign map[ssa.Value]bool) map[*ssa.BasicB
 				} else {
 					st = append(st, frame{b.Succs[1], b, env})
 				}
+				continue
+			}
+			if blocked != nil && blocked(iff.Cond) {
 				continue
 			}
 		}
